@@ -1,4 +1,4 @@
-SPECIFICATION Spec
+SPECIFICATION SpecA
 CONSTANTS
   Ids = {A, B}
   MaxKeys = 2
